@@ -2,7 +2,7 @@
    hand-written model gol_rule, hence every theorem of Properties/C11.v about gol_rule is a theorem about the
    source as it reads now.  One headline theorem restated on the source-derived definition. *)
 From Coq Require Import ZArith List Bool.
-From CPL Require Import Model.Base Model.Life Proofs.LifeProofs gen.GenFuns GenProps.GenFunsEquivC11.
+From CPL Require Import Model.Base Model.Life Proofs.LifeProofs gen.GenFuns_C11 GenProps.GenFunsEquivC11.
 Import ListNotations.
 Local Open Scope Z_scope.
 
